@@ -54,6 +54,10 @@ ASSUMPTIONS = [
     "look-ahead is judged in historical seconds (clock + look-ahead), as the statement words it",
     "a load() that returns `limit` records, or that was given `upcoming`, may leave due records (at/after `upcoming`) for the "
     "next call (documented); promptness is demanded of every other load()",
+    "an otherwise intact line stamped 0.5 s earlier than its predecessor (clock stepped back) counts as a corrupt record: it "
+    "must be skipped (documented: 'ignoring out-of-order timestamp'), not delivered out of order",
+    "a load() call that performs more than 40 file opens (the histories have <= 6 files on disk) is judged as never returning; "
+    "after the 8 scheduled steps the clock jumps 1000 s and load() is repeated (<= 2n+6 times) until the loader is falsy",
     "duration= and values= arguments of loader, on_bad_iframe/on_bad_data other than the defaults, and the realtime stamps "
     "inside loader.values are not examined",
 ]
@@ -234,7 +238,7 @@ def build(dirpath, files, names, fmts, inject):
 # ------------------------------------------------------------------------------------------------------------------
 # running one case against the real loader
 
-def run_case(base, files, start, factor, la, limit, upc, sched, horizon=None):
+def run_case(base, files, start, factor, la, limit, upc, sched):
     """Returns (trace, steps_executed, final).  trace[j] = dict(trel, limit, U, events[(ts_off, values)], state, vmap,
     nfut, trans, exc)."""
     e = env()
